@@ -143,6 +143,12 @@ func (p *Parser) nextToken() {
 func (p *Parser) ParseConditionalExpression() *ConditionalExpression {
 	stmt := &ConditionalExpression{Token: p.curToken}
 
+	if p.curToken.Type == EOF {
+		p.errors = append(p.errors, "Syntax error; the expression is empty")
+
+		return stmt
+	}
+
 	if p.curToken.Type == IDENT && p.peekToken.Type == EOF {
 		msg := fmt.Sprintf("Syntax error; token: <EOF>, near: %q", p.curToken.Literal)
 		p.errors = append(p.errors, msg)
